@@ -156,7 +156,7 @@ class Heading(BlockToken):
         level (int): heading level.
     """
     repr_attributes = BlockToken.repr_attributes + ("level",)
-    pattern = re.compile(r' {0,3}(#{1,6})(?:\n|\s+?(.*?)(\n|\s+?#+\s*?$))')
+    pattern = re.compile(r' {0,3}(#{1,6})(?:\n|[ \t]+?(.*?)(\n|[ \t]+?#+[ \t]*?\n?$))')
     level = 0
     content = ''
 
